@@ -96,9 +96,15 @@ def r1b_dead_temporaries(ctx, F):
             while changed:
                 changed = False
                 for st in f.stmts:
-                    if st.bb in after and st.kind == "use" and st.lhs not in alias and re.match(
-                            r"(copy|move) (_\d+)$", st.ops[0] if st.ops else "") and st.ops[0].split()[1] in alias \
-                            and "." not in st.lhs:
+                    if st.bb not in after or st.lhs in alias or "." in st.lhs or not st.ops:
+                        continue
+                    if st.kind == "use" and re.match(r"(copy|move) (_\d+)$", st.ops[0]) and st.ops[0].split()[1] in alias:
+                        alias.add(st.lhs)
+                        changed = True
+                    elif st.kind.startswith("agg ") and any(
+                            re.match(r"(copy|move) (_\d+)$", o.strip()) and o.split()[1] in alias
+                            for o in " | ".join(st.ops).split(" | ")):
+                        # wrapped whole into a value that is stored (`cell.set(Some(v))`)
                         alias.add(st.lhs)
                         changed = True
             stored = any(st.bb in after and ("." in st.lhs) and any(a in re.findall(r"_\d+", " ".join(st.ops)) for a in alias)
